@@ -272,3 +272,41 @@ Proof.
   unfold rne_f in E. destruct (f2ze _) as [[m e]|] eqn:F; [|discriminate].
   inversion E; subst q. exists m, e. split; [reflexivity|]. apply rne_nearest.
 Qed.
+
+(* the unit in which a time-object interval and start are *displayed* plays no role: building the
+   axis with another time_unit argument changes nothing but the unit label *)
+Definition same_axis (a b : axis) : Prop :=
+  ax_n a = ax_n b /\ ax_t0 a = ax_t0 b /\ ax_dt a = ax_dt b /\ ax_dur a = ax_dur b /\ ax_rate a = ax_rate b.
+
+Theorem ut_unit_independent ps su l t0ps tu u1 u2 :
+  match ut_new (mk_ut_args None (Some l) None None (Some (VTime ps su)) (Some (VTime t0ps tu)) (UArg u1)),
+        ut_new (mk_ut_args None (Some l) None None (Some (VTime ps su)) (Some (VTime t0ps tu)) (UArg u2)) with
+  | TOk a, TOk b => same_axis a b /\ ax_unit a = u1 /\ ax_unit b = u2
+  | TErr e, TErr e' => e = e'
+  | TScope, TScope => True
+  | _, _ => False
+  end.
+Proof.
+  unfold ut_new, lay_out. simpl.
+  destruct (recip_f (PrimFloat.div (z2f ps) (z2f (factor su)))) as [r|e|]; simpl; [|reflexivity|exact I].
+  destruct (scope62 ps) as [p|e|]; simpl; [|reflexivity|exact I].
+  destruct (scope62 (l * p)) as [d|e|]; simpl; [|reflexivity|exact I].
+  destruct (scope62 t0ps) as [t|e|]; simpl; [|reflexivity|exact I].
+  destruct (arange_len d p) as [n|e|]; simpl; [|reflexivity|exact I].
+  unfold same_axis; simpl. repeat split.
+Qed.
+
+(* the same instant count given as whole numbers of two different units *)
+Theorem ut_same_sampling_any_unit k1 u1 k2 u2 z1 z2 l :
+  k1 * factor u1 = k2 * factor u2 -> z1 * factor u1 = z2 * factor u2 ->
+  forall a b,
+  ut_new (mk_ut_args None (Some l) None None (Some (VInt k1)) (Some (VInt z1)) (UArg u1)) = TOk a ->
+  ut_new (mk_ut_args None (Some l) None None (Some (VInt k2)) (Some (VInt z2)) (UArg u2)) = TOk b ->
+  0 < k1 -> 0 < k2 -> 0 <= l ->
+  ax_n a = ax_n b /\ ax_t0 a = ax_t0 b /\ ax_dt a = ax_dt b /\ ax_dur a = ax_dur b.
+Proof.
+  intros Hk Hz a b Ha Hb H1 H2 Hl.
+  destruct (ut_int_path _ _ _ _ _ Ha H1 Hl) as (Na & Da & Ta & Ua & _).
+  destruct (ut_int_path _ _ _ _ _ Hb H2 Hl) as (Nb & Db & Tb & Ub & _).
+  rewrite Na, Nb, Da, Db, Ta, Tb, Ua, Ub, Hk, Hz. repeat split.
+Qed.
